@@ -678,6 +678,14 @@ class NZ:
     def __init__(self, mask, axis):
         self.mask = mask; self.axis = axis
 
+    @property
+    def size(self):
+        """number of selected elements (symbolic count)"""
+        return f_sum(self.mask.astype(np.int64))
+
+    def __len__(self):
+        raise Unsupported('len() of a data-dependent selection')
+
 
 class Masked:
     """lazy compressed view a[mask] for a symbolic boolean mask (elementwise work stays full size)"""
@@ -893,8 +901,20 @@ class SymArray:
         if isinstance(k, SymArray) and k.kind == 'b' and not k.is_concrete():
             return self._mask_store(k, v)
         if isinstance(k, tuple) and k and all(isinstance(x, NZ) for x in k):
-            assert len(k) == k[0].mask.ndim and all(x.mask is k[0].mask for x in k)
-            return self._mask_store(k[0].mask, v)
+            if not all(x.mask is k[0].mask for x in k):
+                raise Unsupported('store through components of different selections')
+            m = k[0].mask
+            axes = [x.axis % m.ndim for x in k]
+            if len(k) < m.ndim:
+                # only some components of np.where(mask) are used (e.g. rows/cols of a 3-D mask): a cell is selected when
+                # any element along the dropped axes is
+                if axes != sorted(axes):
+                    raise Unsupported('permuted selection components')
+                dropped = tuple(a for a in range(m.ndim) if a not in axes)
+                m = f_any(m, axis=dropped)
+            elif axes != list(range(m.ndim)):
+                raise Unsupported('permuted selection components')
+            return self._mask_store(m, v)
         ks = self._norm_key(k)
         if any(isinstance(x, (Sym, SymArray)) for x in ks):
             return self._sym_set(ks, v)
